@@ -325,13 +325,31 @@ func genCMapFile(t *rapid.T) []byte {
 		}
 		ms = append(ms, m)
 	}
+	// copies that kept the /CMapName of the original (a -V made from a -H):
+	// resources under different keys whose /CMapName entries are equal, or
+	// that carry no /CMapName at all
+	if rapid.IntRange(0, 2).Draw(t, "samecmapname") == 0 {
+		for i := 1; i < n; i++ {
+			switch rapid.IntRange(0, 2).Draw(t, "keykind") {
+			case 0:
+				ms[i].Key = ms[i].Name
+				ms[i].Name = ms[0].Name
+			case 1:
+				ms[i].NoCMapName = true
+			}
+		}
+	}
 	// some of the CMaps build on another CMap of the same file (or on one
 	// from elsewhere): whichever is returned, it must be the same every time
 	if rapid.Bool().Draw(t, "usecmaps") {
 		for i, m := range ms {
 			switch rapid.IntRange(0, 3).Draw(t, "usecmap") {
 			case 0:
-				m.UseCMap = ms[(i+1+rapid.IntRange(0, n-2).Draw(t, "usewhich"))%n].Name
+				o := ms[(i+1+rapid.IntRange(0, n-2).Draw(t, "usewhich"))%n]
+				m.UseCMap = o.Name
+				if o.Key != "" {
+					m.UseCMap = o.Key
+				}
 			case 1:
 				m.UseCMap = "Elsewhere-H"
 			}
@@ -364,7 +382,7 @@ func hugeGlyphFont(n, segments int) *type1.Font {
 func TestP1Repeat(t *testing.T) {
 	rec := ev.New("C17", "repeat")
 	defer rec.Finish(t)
-	rec.Rule(fmt.Sprintf("values built to expose iteration order - fonts with up to 60 glyphs from the C09 generator plus glyphs whose names differ from another's in letter case only, metrics with 2-40 glyphs (names differing in case or leading zeros only) and 0-6 ligatures per glyph plus kerning, CMap files with 2-5 CMaps whose names are adjacent or equal, half of them with usecmap references to each other or to an outside CMap, and blocks with duplicate source codes (ties in the sort). History: each writer (4 Type 1 formats - for half of the fonts with writes to failing destinations, at byte offsets spread over the output, in between -, WritePDF with its two lengths, Metrics.Write, both GlyphList methods) is invoked %d times on the same value and every output must be byte-identical to the first; each reader (type1.Read on all four formats, afm.Read, ReadCMap - half of the CMap cases with other inputs read in between: CMap files that define straight into the procedure set, redefine its operators or stop half-way, and programs that store into shared-looking objects) is invoked repeatedly on the same bytes and must give deep-equal results (for CMaps: same CMap chosen, same tables in the same order). Non-trivial: the value has >= 1 map with >= 2 entries on an output path (>= 2 glyphs, >= 2 ligatures on a glyph, >= 2 CMaps); distinct by value. Go walks a map of up to 8 entries in a rotation of its insertion order from a random start: a two-entry map shows its other order in 1 of 8 iterations, so the %d repeats of one case miss an order dependence of such a map with probability (7/8)^%d; the number of cases per run is what makes a miss improbable.", repeats, repeats, repeats-1))
+	rec.Rule(fmt.Sprintf("values built to expose iteration order - fonts with up to 60 glyphs from the C09 generator plus glyphs whose names differ from another's in letter case only, metrics with 2-40 glyphs (names differing in case or leading zeros only) and 0-6 ligatures per glyph plus kerning, CMap files with 2-5 CMaps whose names are adjacent or equal (a third of the files with resources under different keys whose /CMapName entries are equal or absent), half of them with usecmap references to each other or to an outside CMap, and blocks with duplicate source codes (ties in the sort). History: each writer (4 Type 1 formats - for half of the fonts with writes to failing destinations, at byte offsets spread over the output, in between -, WritePDF with its two lengths, Metrics.Write, both GlyphList methods) is invoked %d times on the same value and every output must be byte-identical to the first; each reader (type1.Read on all four formats, afm.Read, ReadCMap - half of the CMap cases with other inputs read in between: CMap files that define straight into the procedure set, redefine its operators or stop half-way, and programs that store into shared-looking objects) is invoked repeatedly on the same bytes and must give deep-equal results (for CMaps: same CMap chosen, same tables in the same order). Non-trivial: the value has >= 1 map with >= 2 entries on an output path (>= 2 glyphs, >= 2 ligatures on a glyph, >= 2 CMaps); distinct by value. Go walks a map of up to 8 entries in a rotation of its insertion order from a random start: a two-entry map shows its other order in 1 of 8 iterations, so the %d repeats of one case miss an order dependence of such a map with probability (7/8)^%d; the number of cases per run is what makes a miss improbable.", repeats, repeats, repeats-1))
 	ev.SetupRapid(3000, 96000)
 	rapid.Check(t, func(t *rapid.T) {
 		switch rapid.IntRange(0, 2).Draw(t, "kind") {
@@ -720,6 +738,9 @@ type rereadCase struct {
 var perturbations = []string{
 	"%!\nStandardEncoding 66 /A put StandardEncoding 65 /B put\n",
 	"%!\nStandardEncoding 0 1 255 {1 index exch /X put} for pop\n",
+	"%!\nStandardEncoding 65 1 getinterval 0 /B put StandardEncoding 32 95 getinterval 34 /A put\n",
+	"%!\n[ /h0 /h1 /h2 /h3 ] StandardEncoding 64 8 getinterval copy pop StandardEncoding 97 [ /p0 /p1 ] putinterval\n",
+	"%!\n[ /c0 /c1 /c2 ] StandardEncoding copy pop\n",
 	"%!\nFontDirectory /Leak 1 dict put\n",
 	"%!\n1183615869 internaldict /startlock {stop} put\n",
 	"%!\nerrordict /undefined {pop} put errordict /typecheck {stop} put\n",
